@@ -2,7 +2,7 @@
     to the emitted C under every split is the correspondence run by harness/props/c02.py). *)
 From Coq Require Import NArith Arith List Bool.
 Import ListNotations.
-From NV Require Import Machine.Dfa Machine.Sem Machine.Chunk.
+From NV Require Import Machine.Dfa Machine.Sem Machine.Chunk Machine.Bisim Machine.BBisim Machine.Drive Machine.DriveChunks.
 
 (** one call on c1 ++ c2 = a call on c1 and, if it ran off the end of c1, a call on c2 from the struct
     it left: same code, state, data, total consumed count, same events in the same order *)
@@ -36,4 +36,37 @@ Definition ex_d : dfa :=
 Example c02_example : dfa_wf ex_d = true /\
   option_map (fun r => (f_res nat r, f_consumed nat r, f_x nat r)) (feed nat (fun p _ x => x + N.to_nat p) (fun _ _ _ => true) ex_d [97; 98]%N 0 0) = Some (ROk, 2, 7) /\
   option_map (fun r => (f_res nat r, f_consumed nat r, f_x nat r)) (feed_chunks nat (fun p _ x => x + N.to_nat p) (fun _ _ _ => true) ex_d [[97]; [98]]%N 0 0) = Some (ROk, 2, 7).
+Proof. repeat split; vm_compute; reflexivity. Qed.
+
+(** with yields: a caller who passes the input in chunks - any chunks, empty ones included - and after every yield code
+    calls feed again with what the reported cursor position has not passed of the current chunk (DriveChunks.drive_chunks,
+    built from Sem.feed_go) observes exactly the symbol-by-symbol run on the concatenation: every trace the chunked loop
+    produces is the run's, and whenever the run produces a trace the loop produces it (given (K+2) * length + 1 feed calls
+    per chunk, K the run's budget of consecutive yields that do not advance) *)
+Theorem c02_chunked_loop_is_the_run : forall D exec evalt d, dfa_wf d = true ->
+  (forall f K, f <= K -> forall chunks q x tr,
+     drive_chunks D exec evalt d f chunks q x = Some tr -> run D exec evalt (step_tree d) K (concat chunks) q x = Some tr) /\
+  (forall K chunks F, bound K (length (concat chunks)) <= F -> forall q x tr,
+     run D exec evalt (step_tree d) K (concat chunks) q x = Some tr -> drive_chunks D exec evalt d F chunks q x = Some tr).
+Proof. intros D exec evalt d Hwf. split; [exact (drive_chunks_run D exec evalt d Hwf) | exact (run_drive_chunks D exec evalt d Hwf)]. Qed.
+Print Assumptions c02_chunked_loop_is_the_run.
+
+(** hence two ways of cutting the same input cannot be told apart: hooks, test outcomes, yield / finish codes and the
+    final result come in the same order *)
+Theorem c02_two_chunkings_same_trace : forall D exec evalt d, dfa_wf d = true ->
+  forall f1 f2 cs1 cs2 q x tr1 tr2, concat cs1 = concat cs2 ->
+  drive_chunks D exec evalt d f1 cs1 q x = Some tr1 -> drive_chunks D exec evalt d f2 cs2 q x = Some tr2 -> tr1 = tr2.
+Proof. exact two_chunkings_same_trace. Qed.
+Print Assumptions c02_two_chunkings_same_trace.
+
+(** non-vacuity with a yield: a machine that yields code 5 on every a (advancing) and runs primitive 7 on b; the
+    input a b a cut as [a b a], [a][b][a] and [a b][][a] gives the same trace *)
+Definition ex_y : dfa :=
+  {| d_states := [SNormal [{| t_on := N.shiftl 1 97; t_tgt := Some 0; t_fall := false; t_err := false; t_early := true; t_acts := ARet (RYield 5%N) |};
+                           {| t_on := N.shiftl 1 98; t_tgt := Some 0; t_fall := false; t_err := false; t_early := false; t_acts := APrim 7%N AEnd |}]];
+     d_start := 0; d_acc := []; d_start_acts := AEnd; d_strict_done := false; d_end_check := false |}.
+Example c02_example_yield : dfa_wf ex_y = true /\
+  drive_chunks unit (fun _ _ x => x) (fun _ _ _ => true) ex_y 4 [[97; 98; 97]]%N 0 tt = Some [IRet (RYield 5%N); IPrim 7%N; IRet (RYield 5%N)] /\
+  drive_chunks unit (fun _ _ x => x) (fun _ _ _ => true) ex_y 4 [[97]; [98]; [97]]%N 0 tt = Some [IRet (RYield 5%N); IPrim 7%N; IRet (RYield 5%N)] /\
+  drive_chunks unit (fun _ _ x => x) (fun _ _ _ => true) ex_y 4 [[97; 98]; []; [97]]%N 0 tt = Some [IRet (RYield 5%N); IPrim 7%N; IRet (RYield 5%N)].
 Proof. repeat split; vm_compute; reflexivity. Qed.
